@@ -105,6 +105,23 @@ func runC08(c *an.Ctx) {
 		}
 	}
 
+	// the pointers are dropped (wipe) only for the whole chain: from == Tail ∧ to == Head+1 ∧ no header stored at `to`
+	{
+		wcs := callsTo(fn, d.wipe)
+		c.Min("C08.a", "wipe calls in DeleteRange", len(wcs), 1)
+		for _, wc := range wcs {
+			fs := ff.AtRefined(wc.Block())
+			okTo := false
+			for _, gc := range callsTo(fn, c.P.Method("store", "Store", "getByHeight")) {
+				if t.Of(gc.Call.Args[2]) == "p3" && fs.Has(an.B("errors.Is("+t.Of(gc)+"#1,header.ErrNotFound)")) {
+					okTo = true
+				}
+			}
+			c.Check(fs.Has(updTail) && fs.Has(updHead) && okTo, "C08.a", "wipe-only-whole-chain",
+				"the head/tail pointers are dropped only when the range is the whole chain (from == Tail, to == Head+1) and no header is stored at `to`", fn, wc, "", fs)
+		}
+	}
+
 	// --- C08.c success implies deletion
 	isRaw := func(in ssa.Instruction) bool {
 		call, isCall := in.(*ssa.Call)
